@@ -57,6 +57,8 @@ def menu(names):
     for n in names:
         m += [f"def {n}(): ...", f"from pkg.a import {n}", f"from pkg.b import {n}", f"from pkg import {n}", f"from . import {n}", f"from pkg.nope import {n}", f"__all__ = ['{n}']"]
     m += ["from pkg.a import *", "from pkg.b import *", "from pkg import *", "import pkg.nope"]
+    # imports whose path goes THROUGH a name of another module (which may be an alias: dangling, cyclic or fine)
+    m += [f"from pkg.a.{names[0]} import {names[0]}", f"from pkg.b.{names[0]}.sub import *"]
     return m
 
 
